@@ -21,7 +21,11 @@ PROPS_MODULES = ["AsyncFix.Props.C11"]
 FINDINGS_MODULE = None
 ASSUMPTIONS = [
     "application hooks (on_message, on_logon, on_logout, on_disconnect, on_state_change, should_replay) return "
-    "normally and do not call back into the connection",
+    "normally and do not call back into the connection; closing the transport does not raise (both are probed "
+    "with injected faults, NOT gating: oracle.distribution.fault_probe_not_gating)",
+    "collaborator faults (round 5): journal writes and transport write / drain failing once with an exception of "
+    "any class are injected into the implementation-only histories; the Lean model has the library's own failure "
+    "kinds (DuplicateSeqNo, Attribute, Encoding) only, so foreign classes are covered by the oracle, not by a theorem",
     "messages carry plain tags only (no repeating groups, no repeated tags), tags are canonical decimals, values "
     "contain no SOH; frame <-> field-list is the Codec family's concern (C01)",
     "numeric header fields are ASCII in the MODEL (CPython int() also accepts non-ASCII digits and NBSP / NEL "
@@ -39,6 +43,10 @@ MODELLED_NOT_VERIFIED = [
     "(Model/Session*.lean); the tie is the exhaustive single-step table + random histories run every check",
 ]
 
+# fault points whose clean-tree deviations are reported to the integrator and await a decision (round 5):
+# transport close raising aborts disconnect(); application hooks raising leave half-done transitions
+PENDING_FAULT_POINTS = {"writer.close", "hook.on_message", "hook.on_disconnect", "hook.on_logon", "hook.on_logout",
+                        "hook.on_state_change"}
 LOUD = ("W", "D", "L", "LO")
 ESTABLISHED = (10, 11, 12, 17)
 ASSIGNED = (0, 1, 2, 3, 6, 7, 8, 10, 11, 12, 17)  # states the code (or the constructor) ever assigns
@@ -71,7 +79,25 @@ def parse_event(text):
         return ("conn", t[1])
     if k == "reset":
         return ("reset",)
+    if k == "feed":  # a read() chunk (junk bytes are not part of the tokens: see event_from)
+        return ("read", int(t[1]), [S.parse_msg_tok(x) for x in t[4:4 + int(t[3])]], "")
     raise ValueError(text)
+
+
+def event_raw(ev):
+    """JSON-able form of an event that keeps everything (junk bytes of a read chunk)"""
+    return json.loads(json.dumps(ev))
+
+
+def event_from(raw):
+    def tup(x):
+        return tuple(tup(y) for y in x) if isinstance(x, list) else x
+    ev = tup(raw)
+    if ev[0] == "read":
+        return ("read", ev[1], [(m[0], [tuple(f) for f in m[1]]) for m in raw[2]], raw[3])
+    if ev[0] in ("recv", "send"):
+        return (ev[0], ev[1], (raw[2][0], [tuple(f) for f in raw[2][1]]))
+    return ev
 
 
 def correspondence(ctx):
@@ -83,7 +109,7 @@ def correspondence(ctx):
             # the states the code never assigns (4 5 9 13-16 18) behave like their neighbours: every third case
             # of those cells in the quick tier, the complete table in the thorough tier
             table = [c for i, c in enumerate(table) if c[0].state in ASSIGNED or i % 3 == 0]
-        cases = corpus_cases() + table + list(S.near_cases(ctx.rng))
+        cases = corpus_cases() + table + list(S.near_cases(ctx.rng)) + list(S.read_cases(ctx.rng))
         n, dis, results = S.compare_steps(impl, cases, stats=stats)
         ctx.single_step = (cases, results)  # reused by the oracle (implementation results only)
         hstats = {}
@@ -179,7 +205,7 @@ def writes(eff):
     return [S.parse_msg_tok(e[2:]) for e in eff if e.startswith("W=")]
 
 
-def sentences(a: S.AbsConn, ev, eff, post_tokens, reached=False):
+def sentences(a: S.AbsConn, ev, eff, post_tokens, reached=False, faulted=False, buf=None):
     """yield (signature, what) for every sentence of C11 this step violates.
     reached: the state `a` was reached by real events from a fresh object (so it IS reachable, whatever its
     role / configuration); otherwise `a` is a forced state and only the combinations the code can be in are
@@ -201,6 +227,15 @@ def sentences(a: S.AbsConn, ev, eff, post_tokens, reached=False):
             yield (f"C11-loud-while-disconnected:{ev[0]}", "frame or message callback from a disconnected state")
         if ev[0] != "conn" and post.state > 3:
             yield (f"C11-revived:{ev[0]}", "left the disconnected state without a new transport")
+    # -- bytes received on a connection that was dropped must not survive it (buf = receive-buffer length)
+    if buf and "DC" in k:
+        yield ("C11-stale-bytes-after-disconnect", "the receive buffer still holds bytes of the connection that was "
+               "just dropped: they would be processed as input of the next connection of the same object")
+    # -- a read() chunk without a complete frame (junk, a marker prefix) causes nothing: in particular no bytes of
+    #    an EARLIER connection of the same object are processed
+    if ev[0] == "read" and not ev[2] and eff and not faulted:
+        yield ("C11-effects-without-input", "a read() without any complete frame had effects: bytes left over from "
+               "before (an earlier connection?) were processed")
     # -- sends before the Logon exchange
     if ev[0] == "send":
         mt = ev[2][0]
@@ -244,7 +279,7 @@ def sentences(a: S.AbsConn, ev, eff, post_tokens, reached=False):
     if post.state > 3:
         # whatever happens to the Logout: disconnect() completes (also with a taken journal slot / no transport)
         yield (f"C11-defect-not-disconnected:{cls}", "connection not dropped")
-    if not consistent(a) or not a.sock:
+    if not consistent(a) or not a.sock or faulted:
         return  # the Logout itself can only be demanded when it can be journaled and written
     identifiable = d in ("begin-string", "compid-wrong", "seq-missing", "seq-garbled", "seq-too-low")
     logouts = [w for w in ws if w[0] == "5"]
@@ -252,6 +287,11 @@ def sentences(a: S.AbsConn, ev, eff, post_tokens, reached=False):
         yield (f"C11-defect-logout:{cls}:{len(logouts)}/{len(ws)}", "Logout with the reason not written exactly when the counterparty is identifiable")
     elif identifiable and not dict(logouts[0][1]).get(58):
         yield (f"C11-defect-logout-no-reason:{cls}", "Logout without the reason text")
+
+
+def ev_of(entry):
+    """event of a stored history entry [sr, tokens(, raw)]"""
+    return event_from(entry[2]) if len(entry) > 2 else parse_event(entry[1])
 
 
 def followups(a: S.AbsConn, now):
@@ -272,13 +312,16 @@ def oracle(ctx, disagreements, broken):
     failures, n = [], 0
     dist = {"forced_steps": 0, "history_steps": 0, "followup_steps": 0, "nonascii_steps": 0}
     try:
-        def check(a, sr, ev, eff, post, reached=False, hist=None):
+        def check(a, sr, ev, eff, post, reached=False, hist=None, fault=None, buf=None):
             nonlocal n
             n += 1
-            for sig, what in sentences(a, ev, eff, post, reached):
+            for sig, what in sentences(a, ev, eff, post, reached, faulted=bool(fault), buf=buf):
                 inp = {"conn": a.tokens(), "sr": sr, "event": S.event_tokens(ev)}
                 if hist is not None:
                     inp = {"history": {"start": hist[0], "events": list(hist[1])}}
+                    if fault:
+                        inp["history"]["fault"] = fault
+                        sig += ":fault=" + fault["where"]
                 failures.append({"signature": sig, "what": what, "input": inp,
                                  "expected": "C11 sentence holds", "observed": S.reply(eff, post)[:1500]})
 
@@ -292,9 +335,9 @@ def oracle(ctx, disagreements, broken):
                 del impl.eff[:]
                 impl.apply(sr, ev)
                 eff, post = impl.effects(), impl.dump()
-                done.append([sr, S.event_tokens(ev)])
+                done.append([sr, S.event_tokens(ev), event_raw(ev)])
                 if i >= upto_check_from:
-                    check(a, sr, ev, eff, post, True, (start.tokens(), done))
+                    check(a, sr, ev, eff, post, True, (start.tokens(), done), buf=impl.buflog[-1])
                 a = S.parse_conn_tokens(post)
             return a
 
@@ -304,7 +347,7 @@ def oracle(ctx, disagreements, broken):
             if "conn" in inp:
                 a, ev = S.parse_conn_tokens(inp["conn"]), parse_event(inp["event"])
                 eff, post = impl.step(a, inp["sr"], ev)
-                check(a, inp["sr"], ev, eff, post)
+                check(a, inp["sr"], ev, eff, post, buf=impl.buflog[-1])
                 dist["forced_steps"] += 1
                 if reachable(a) and consistent(a):
                     b = S.parse_conn_tokens(post)
@@ -314,7 +357,7 @@ def oracle(ctx, disagreements, broken):
                         dist["followup_steps"] += 1
             else:
                 h = inp["history"]
-                run_hist(S.parse_conn_tokens(h["start"]), [(sr, parse_event(e)) for sr, e in h["events"]])
+                run_hist(S.parse_conn_tokens(h["start"]), [(x[0], ev_of(x)) for x in h["events"]])
         # 2. the single-step table (implementation results of this run when available)
         cached = getattr(ctx, "single_step", None)
         if cached and not broken and getattr(ctx, "c11_table_checked", False):
@@ -325,7 +368,8 @@ def oracle(ctx, disagreements, broken):
                 check(c[0], c[1], c[2], r[0], r[1])
                 dist["forced_steps"] += 1
         else:
-            for c in corpus_cases() + list(S.single_step_cases(ctx.rng)) + list(S.near_cases(ctx.rng)):
+            for c in (corpus_cases() + list(S.single_step_cases(ctx.rng)) + list(S.near_cases(ctx.rng))
+                      + list(S.read_cases(ctx.rng))):
                 check(c[0], c[1], c[2], *impl.step(c[0], c[1], c[2]))
                 dist["forced_steps"] += 1
         # 3. values outside the model's ASCII int(): implementation only
@@ -346,15 +390,71 @@ def oracle(ctx, disagreements, broken):
             start, steps = S.run_history(impl, ctx.rng, hl, wide=True)
             a = start
             done = []
-            for (sr, ev, lab, eff, post) in steps:
-                done.append([sr, S.event_tokens(ev)])
-                check(a, sr, ev, eff, post, True, (start.tokens(), done))
+            bl = list(impl.buflog)
+            for i, (sr, ev, lab, eff, post) in enumerate(steps):
+                done.append([sr, S.event_tokens(ev), event_raw(ev)])
+                check(a, sr, ev, eff, post, True, (start.tokens(), done), buf=bl[i])
                 dist["history_steps"] += 1
                 a = S.parse_conn_tokens(post)
+        # 5. the same histories with ONE collaborator fault injected (journal / transport / hook call number k
+        #    raises an exception of some class, once): the C11 sentences must survive it
+        nf = ctx.n(120, 1200) * (2 if broken else 1)
+        if getattr(ctx, "c11_fault_pass", False) and not broken:
+            nf //= 2
+        ctx.c11_fault_pass = True
+        dist["fault_histories"], dist["fault_points"] = nf, {}
+        for _ in range(nf):
+            where = ctx.rng.choice([w for w in S.Impl.FAULT_POINTS if w not in PENDING_FAULT_POINTS])
+            exc = ctx.rng.choice(S.Impl.FAULT_CLASSES + (["CancelledError"] if where.startswith("hook.") else []))
+            fault = {"where": where, "k": ctx.rng.randint(1, 6), "exc": exc}
+            impl.fault = fault
+            try:
+                start, steps = S.run_history(impl, ctx.rng, hl, wide=True)
+                fired = impl.fault_fired
+            finally:
+                impl.fault = None
+            if fired:
+                dist["fault_points"][where] = dist["fault_points"].get(where, 0) + 1
+            a = start
+            done = []
+            fstep = impl.fault_step if fired else None
+            for i, (sr, ev, lab, eff, post) in enumerate(steps):
+                done.append([sr, S.event_tokens(ev), event_raw(ev)])
+                check(a, sr, ev, eff, post, True, (start.tokens(), done), fault if (fired and i >= fstep) else None)
+                dist["history_steps"] += 1
+                a = S.parse_conn_tokens(post)
+        # 6. NOT gating (integrator's decision, DESIGN.md): a transport whose close() raises and application hooks
+        #    that raise are outside C11's quantifier; they are probed and the deviations counted in the evidence
+        probe = {"histories": 0, "fired": {}, "deviations": {}}
+        keep = len(failures)
+        for _ in range(ctx.n(40, 300)):
+            where = ctx.rng.choice(sorted(PENDING_FAULT_POINTS))
+            exc = ctx.rng.choice(S.Impl.FAULT_CLASSES + (["CancelledError"] if where.startswith("hook.") else []))
+            fault = {"where": where, "k": ctx.rng.randint(1, 4), "exc": exc}
+            impl.fault = fault
+            try:
+                start, steps = S.run_history(impl, ctx.rng, hl, wide=True)
+                fired = impl.fault_fired
+            finally:
+                impl.fault = None
+            probe["histories"] += 1
+            if not fired:
+                continue
+            probe["fired"][where] = probe["fired"].get(where, 0) + 1
+            a = start
+            for i, (sr, ev, lab, eff, post) in enumerate(steps):
+                if i >= impl.fault_step:
+                    for sig, _ in sentences(a, ev, eff, post, True, faulted=True):
+                        key = sig.split(":")[0] + ":" + where
+                        probe["deviations"][key] = probe["deviations"].get(key, 0) + 1
+                a = S.parse_conn_tokens(post)
+        del failures[keep:]
+        dist["fault_probe_not_gating"] = probe
         ctx.oracle_stats = {"evaluations": n, "failures": len(failures), "histories": nh, "distribution": dist,
                             "sentences": ["disconnect-count", "loud-after-disconnect", "loud-while-disconnected", "revived",
                                           "prelogon-send", "prelogon-delivery", "defect-delivered", "defect-advanced-counter",
-                                          "defect-not-disconnected", "defect-logout", "half-logged-on"]}
+                                          "defect-not-disconnected", "defect-logout", "half-logged-on", "effects-without-input",
+                                          "stale-bytes-after-disconnect"]}
     finally:
         impl.close()
     # shortest witness per signature first
@@ -372,20 +472,22 @@ def replay(ctx, rp):
         if "history" in inp:
             h = inp["history"]
             start = S.parse_conn_tokens(h["start"])
+            impl.fault = h.get("fault")
             impl.load(start)
             a, sigs = start, []
-            for sr, evt in h["events"]:
-                ev = parse_event(evt)
+            for entry in h["events"]:
+                sr, ev = entry[0], ev_of(entry)
                 del impl.eff[:]
                 impl.apply(sr, ev)
                 eff, post = impl.effects(), impl.dump()
-                sigs = [s for s, _ in sentences(a, ev, eff, post, True)]
+                sigs = [s for s, _ in sentences(a, ev, eff, post, True, faulted=impl.fault_fired, buf=impl.buflog[-1])]
                 a = S.parse_conn_tokens(post)
             print("replay: history of", len(h["events"]), "events; last step ->", sigs)
-            return rp["signature"] in sigs
+            impl.fault = None
+            return rp["signature"].split(":fault=")[0] in sigs
         a, ev = S.parse_conn_tokens(inp["conn"]), parse_event(inp["event"])
         eff, post = impl.step(a, inp["sr"], ev)
-        sigs = [s for s, _ in sentences(a, ev, eff, post)]
+        sigs = [s for s, _ in sentences(a, ev, eff, post, buf=impl.buflog[-1])]
         print("replay:", inp["event"][:120], "->", S.reply(eff, post)[:300], sigs)
         return rp["signature"] in sigs
     finally:
